@@ -51,6 +51,83 @@ def runner_params(w, reg):
     return flag[0], q[0], regp[0]
 
 
+def registry_mods(w):
+    """(cfg of the helper, modification nodes, local names holding a per-signal list)"""
+    h = w.helper
+    g = cfg_of(h)
+    regp = h.params[0]
+    defs = local_defs(h.node)
+    lists = [k for k, v in defs.items() if any((isinstance(x, ast.Subscript) and isinstance(x.value, ast.Name) and x.value.id == regp) or
+                                               (isinstance(x, ast.Call) and isinstance(x.func, ast.Attribute) and x.func.attr in ('get', 'setdefault') and isinstance(x.func.value, ast.Name) and x.func.value.id == regp)
+                                               for x in v if not isinstance(x, tuple))]
+    appends = [n for n in g.nodes if n.kind not in ('entry', 'exit', 'xexit', 'def') and
+               any(isinstance(c.func, ast.Attribute) and c.func.attr in ('append', 'insert', 'extend', 'appendleft') and isinstance(c.func.value, ast.Name)
+                   and c.func.value.id in lists for c in n.calls())]
+    stores = [n for n in g.nodes if n.kind == 'stmt' and isinstance(n.ast, ast.Assign) and
+              any(isinstance(t, ast.Subscript) and isinstance(t.value, ast.Name) and t.value.id in lists for t in n.ast.targets)]
+    news = [n for n in g.nodes if n.kind == 'stmt' and isinstance(n.ast, ast.Assign) and
+            any(isinstance(t, ast.Subscript) and isinstance(t.value, ast.Name) and t.value.id == regp for t in n.ast.targets)]
+    return g, appends + stores + news, lists
+
+
+def atomic_subscribe(run, model, w):
+    fab, sub, h = w.fab, w.subscribe, w.helper
+    regp = h.params[0]
+    g, mods, lists = registry_mods(w)
+    locks = set()
+    fi = fab.methods.get('__init__')
+    for n in walk_shallow(fi.node):
+        if isinstance(n, ast.Assign) and isinstance(n.value, ast.Call) and norm(n.value.func).split('.')[-1] in ('Lock', 'RLock'):
+            for t in n.targets:
+                d = dotted(t)
+                if d and d.startswith(fi.params[0] + '.'):
+                    locks.add(d.split('.', 1)[1])
+    par = parents(sub.node)
+
+    def lock_with(node):
+        p_ = par.get(node)
+        while p_ is not None and p_ is not sub.node:
+            if isinstance(p_, ast.With):
+                for it_ in p_.items:
+                    d_ = dotted(it_.context_expr)
+                    if d_ and d_.split('.')[-1] in locks:
+                        return p_
+            p_ = par.get(p_)
+        return None
+    helper_calls = [c for c in shallow_calls(sub.node) if isinstance(c.func, ast.Name) and c.func.id == h.name]
+    mods_ast = [m.ast for m in mods]
+    # every read of the registry that can decide the modification (subscript load, `in` test, .get) ...
+    reads_ast = []
+    for n in walk_shallow(h.node):
+        if isinstance(n, ast.Subscript) and isinstance(n.value, ast.Name) and n.value.id == regp and isinstance(n.ctx, ast.Load):
+            reads_ast.append(n)
+        if isinstance(n, ast.Compare) and any(isinstance(op, (ast.In, ast.NotIn)) for op in n.ops) and any(isinstance(c_, ast.Name) and c_.id == regp for c_ in n.comparators):
+            reads_ast.append(n)
+        if isinstance(n, ast.Call) and isinstance(n.func, ast.Attribute) and isinstance(n.func.value, ast.Name) and n.func.value.id == regp and n.func.attr in ('get', 'setdefault', 'keys', 'items', 'values'):
+            reads_ast.append(n)
+    callers_locked = all(lock_with(c) is not None for c in helper_calls) and bool(helper_calls)
+    # ... lies in the same with-block as every modification
+    hpar = parents(h.node)
+
+    def lock_with_h(node):
+        p_ = hpar.get(node)
+        while p_ is not None and p_ is not h.node:
+            if isinstance(p_, ast.With):
+                for it_ in p_.items:
+                    d_ = dotted(it_.context_expr)
+                    if d_ and d_.split('.')[-1] in locks:
+                        return p_
+            p_ = hpar.get(p_)
+        return None
+    ws = {id(lock_with_h(x)) for x in mods_ast + reads_ast}
+    one_section = len(ws) == 1 and None not in [lock_with_h(x) for x in mods_ast + reads_ast] and bool(mods_ast)
+    ok = callers_locked or one_section
+    run.inst('ATOMIC.subscribe', sub, 'presence tests and registry modification in one critical section', ok,
+             '' if ok else ('subscribe() decides "is this signal / this queue registered?" and then modifies the registry with no lock around both; active objects '
+                            'subscribe from their own threads, so two of them subscribing to a signal nobody has yet both see it absent and both store a fresh '
+                            'one-element list - the second store removes the first subscriber'), obligation=True)
+
+
 def check(run, model, tier):
     run.explanation = ('Identity-versus-content operator census on the subscription registry, per-path modification counts of subscribe(), '
                        'dataflow wiring of kind -> registry -> thread -> fabric queue, and loop-shape analysis of the two delivery threads. '
@@ -73,7 +150,9 @@ def check(run, model, tier):
     queue_name = sub.params[1]
     defs = local_defs(h.node)
     # the local that holds the per-signal list
-    lists = [k for k, v in defs.items() if any(isinstance(x, ast.Subscript) and isinstance(x.value, ast.Name) and x.value.id == regp for x in v if not isinstance(x, tuple))]
+    lists = [k for k, v in defs.items() if any((isinstance(x, ast.Subscript) and isinstance(x.value, ast.Name) and x.value.id == regp) or
+                                               (isinstance(x, ast.Call) and isinstance(x.func, ast.Attribute) and x.func.attr in ('get', 'setdefault') and isinstance(x.func.value, ast.Name) and x.func.value.id == regp)
+                                               for x in v if not isinstance(x, tuple))]
     # ---- IDENT
     n_ops = 0
     for n in walk_shallow(h.node):
@@ -137,45 +216,7 @@ def check(run, model, tier):
         v = nn.ast.value
         ok = isinstance(v, ast.List) and len(v.elts) == 1 and isinstance(v.elts[0], ast.Name) and v.elts[0].id == queue_name
         run.inst('SUBSCRIBE.paths', h, 'a new signal starts with [queue]', ok, '' if ok else 'new registry entry is %s' % norm(v), node=nn.ast, obligation=True)
-    # ---- ATOMIC.subscribe: the presence tests and the registry modification form one critical section
-    locks = set()
-    fi = fab.methods.get('__init__')
-    for n in walk_shallow(fi.node):
-        if isinstance(n, ast.Assign) and isinstance(n.value, ast.Call) and norm(n.value.func).split('.')[-1] in ('Lock', 'RLock'):
-            for t in n.targets:
-                d = dotted(t)
-                if d and d.startswith(fi.params[0] + '.'):
-                    locks.add(d.split('.', 1)[1])
-    par = parents(sub.node)
-
-    def lock_with(node):
-        p_ = par.get(node)
-        while p_ is not None and p_ is not sub.node:
-            if isinstance(p_, ast.With):
-                for it_ in p_.items:
-                    d_ = dotted(it_.context_expr)
-                    if d_ and d_.split('.')[-1] in locks:
-                        return p_
-            p_ = par.get(p_)
-        return None
-    helper_calls = [c for c in shallow_calls(sub.node) if isinstance(c.func, ast.Name) and c.func.id == h.name]
-    mods_ast = [m.ast for m in mods]
-    in_helper_lock = all(lock_with(m) is not None for m in mods_ast) and bool(mods_ast)
-    callers_locked = all(lock_with(c) is not None for c in helper_calls) and bool(helper_calls)
-    # inside the helper the tests that decide the modification must be in the same with-block
-    tests_locked = True
-    if in_helper_lock and not callers_locked:
-        for m in mods_ast:
-            wnode = lock_with(m)
-            for t in g.nodes:
-                if t.kind == 'test' and any(guarded_by_edge(g, mm, t, lab) for mm in mods for lab in ('true', 'false')):
-                    if not any(x is t.ast for x in ast.walk(wnode)):
-                        tests_locked = False
-    ok = callers_locked or (in_helper_lock and tests_locked)
-    run.inst('ATOMIC.subscribe', sub, 'presence tests and registry modification in one critical section', ok,
-             '' if ok else ('subscribe() decides "is this signal / this queue registered?" and then modifies the registry with no lock around both; active objects '
-                            'subscribe from their own threads, so two of them subscribing to a signal nobody has yet both see it absent and both store a fresh '
-                            'one-element list - the second store removes the first subscriber'), obligation=True)
+    atomic_subscribe(run, model, w)
     # ---- KIND.wiring
     for kind, reg in sorted(w.registry.items()):
         th = w.threads[reg]
